@@ -71,8 +71,14 @@ package forkchoice
 //@   trusted
 //@   assigns ghost(gver)
 
+// g_node(version, slot, root): the node (slot, root) is in the graph's view (a block at its own slot, or a gap node
+// carrying the block's root over later empty slots)
+//@ ufun g_node(int, SlotT, RootT) bool
+//@ sort IndicesM = map[NodeRef]NodeIndex
 //@ func (g ForkchoiceGraph) Indices() m
 //@   trusted
+//@   opt noalloc
+//@   ensures forall s SlotT, r RootT :: {has(m, NodeRef(s, r))} has(m, NodeRef(s, r)) == g_node(gver, s, r)
 
 //@ func (g ForkchoiceGraph) ApplyScoreChanges(deltas, justifiedEpoch, finalizedEpoch) err
 //@   trusted
@@ -85,6 +91,7 @@ package forkchoice
 //@ func (v VoteInput) ProcessAttestation(index, blockRoot, headSlot) ok
 //@   trusted
 //@   assigns ghost(vver)
+//@   ensures vver == old(vver) + 1
 
 //@ func (v VoteStore) HasChanges() r
 //@   trusted
@@ -154,12 +161,16 @@ package forkchoice
 //@   requires fc != nil && held(fc.mu) == 0
 //@   ensures held(fc.mu) == 0 && r == fc.finalized
 
+// (C09) "unknown-target votes change nothing": a vote whose node (headSlot, blockRoot) is not in the graph's view is
+// refused and does not reach the vote store; a vote for a node in view is handed to the vote store (whose rule for
+// newer / older target epochs is ProtoVoteStore.ProcessAttestation's contract).
 //@ func (fc *ProtoForkChoice) ProcessAttestation(index, blockRoot, headSlot) ok
-//@   property C17
+//@   property C17 C09
 //@   requires fc != nil && held(fc.mu) == 0 && fc.protoArray != nil && fc.voteStore != nil
 //@   assigns ghost(vver)
 //@   ensures held(fc.mu) == 0
-//@   ensures unknown_block: !g_has(gver, blockRoot) || g_slot(gver, blockRoot) < headSlot ==> !ok && vver == old(vver)
+//@   ensures unknown_target: !g_node(gver, headSlot, blockRoot) ==> !ok && vver == old(vver)
+//@   ensures known_target: g_node(gver, headSlot, blockRoot) ==> vver == old(vver) + 1
 
 //@ func (fc *ProtoForkChoice) CanonicalChain(anchorRoot, anchorSlot) (chain, err)
 //@   property C17
